@@ -734,12 +734,16 @@ fn c10_verdict_is_disjunction_of_recorded_conditions() {
 }
 
 fn c10_new_case(vi: usize, conn: usize, expect100: bool, mi: usize) {
-    // conn: 0 absent, 1 "close", 2 "keep-alive", 3 "Close" (value compare is case-sensitive bytes)
+    // conn: 0 absent, 1 "close", 2 "keep-alive", 3 two fields: keep-alive, then close
     let mut req = ah::mk_request(mi, vi);
     if conn == 1 {
         req.headers_mut().append(http::header::CONNECTION, HeaderValue::from_static("close"));
     } else if conn == 2 {
         req.headers_mut().append(http::header::CONNECTION, HeaderValue::from_static("keep-alive"));
+    }
+    if conn == 3 {
+        req.headers_mut().append(http::header::CONNECTION, HeaderValue::from_static("keep-alive"));
+        req.headers_mut().append(http::header::CONNECTION, HeaderValue::from_static("close"));
     }
     if expect100 {
         req.headers_mut().append(http::header::EXPECT, HeaderValue::from_static("100-continue"));
@@ -752,12 +756,13 @@ fn c10_new_case(vi: usize, conn: usize, expect100: bool, mi: usize) {
         }
         Ok(f) => {
             let http10 = vi == 1;
-            let n = http10 as usize + (conn == 1) as usize;
+            let client_close = conn == 1 || conn == 3;
+            let n = http10 as usize + client_close as usize;
             assert!(f.inner.close_reason.len() == n, "C10/construction-records-exactly-http10-and-client-close");
             if http10 {
                 assert!(f.inner.close_reason[0] == CloseReason::Http10, "C10/http10-recorded");
             }
-            if conn == 1 {
+            if client_close {
                 assert!(f.inner.close_reason[n - 1] == CloseReason::ClientConnectionClose, "C10/client-connection-close-recorded");
             }
             let needs = ah::method_needs_body(mi);
@@ -809,6 +814,18 @@ fn c10_new_http10_close_get() {
 #[kani::proof]
 fn c10_new_http11_keepalive_get() {
     c10_new_case(2, 2, false, 0);
+}
+
+//@ like: c10_new_http11_plain_get
+#[kani::proof]
+fn c10_new_http11_get_expect() {
+    c10_new_case(2, 0, true, 0);
+}
+
+//@ like: c10_new_http11_plain_get
+#[kani::proof]
+fn c10_new_http11_close_in_second_connection_field() {
+    c10_new_case(2, 3, false, 0);
 }
 
 // =====================================================================================
